@@ -2,7 +2,7 @@
   C14 — the modular powering used for the root count over large primes is exponentiation modulo f (`fpPowMod_spec`): the
   list returned by square-and-multiply is congruent to bᵉ modulo f in (Z/p)[X] for every exponent below 2^fuel (the driver
   uses fuel 4096), by `divMod_spec` (the remainder is congruent to the dividend, `divMod_rem_congr`).  The step from
-  "x^p mod f" to the number of distinct roots (deg gcd(f, x^p − x), Fermat) is classical and not formalised.
+  "x^p mod f" to the number of distinct roots is `roots_count_gcd` (`C14RootCount`).
 -/
 import LP.Props.C05FpDiv
 import LP.Driver.Zp
